@@ -757,9 +757,13 @@ func init() {
 			ruleGrammar(c, g, "(*dawg.Dawg).GobEncode", "(*dawg.Dawg).GobDecode", "dawg.encodeUint64", "dawg.decodeUint64")
 			v := &RuleResult{Rule: "VARINT", Doc: "encodeUint64 / decodeUint64 agree on threshold, prefix base, lengths, byte order (encoder read as polynomials over x and its number of leading zero bytes)", MinInst: 8}
 			ruleVarint(c, v, "dawg.encodeUint64", "dawg.decodeUint64")
+			fr := &RuleResult{Rule: "FRESH", Doc: "the bytes returned by GobEncode are the caller's own: they reach no package-level memory (a pooled buffer would be overwritten by the next encode) and none of the Dawg's", MinInst: 2}
+			ge := c.Fn("(*dawg.Dawg).GobEncode")
+			freshResult(c, fr, ge, 0, nil, nil, "is freshly allocated")
+			noWrites(c, fr, ge, nil, "the Dawg or any shared state")
 			ow := &RuleResult{Rule: "OVERWRITE", Doc: "GobDecode assigns every field of every node on every iteration of a loop (or resets the receiver as a whole): no stale state of a reused receiver survives", MinInst: 5}
 			ruleOverwrite(c, ow, "(*dawg.Dawg).GobDecode", "dawg", "Dawg")
-			return []*RuleResult{g, v, ow}
+			return []*RuleResult{g, v, ow, fr}
 		},
 		controls: func(ctl *Ctx) []*RuleResult {
 			g := &RuleResult{Rule: "GRAMMAR"}
